@@ -1,7 +1,7 @@
 #!/bin/bash
 # usage: confirm_seed.sh <Cxx> <k> [--nosuite]
 # Confirms a sub-agent's seeded defect in its scratch worktree /tmp/seed/<Cxx> and, if confirmed, stores it under /verif/seeded/<Cxx>-<k>/.
-id=$1; k=$2; nosuite=$3
+id=$1; k=$2; nosuite=$3; copyto=$4   # copyto: repo-relative dir the demo *_test.go files are copied to before running the demo
 wt=/tmp/seed/$id; sd=/tmp/seed/out/$id/$k; log=/tmp/seed/confirm_$id-$k.log
 export GOFLAGS=-mod=mod GOPROXY=off
 : > $log
@@ -9,13 +9,16 @@ cd $wt || exit 2
 git checkout -q -- . ; git clean -fdq
 demo=$(python3 -c "import json;print(json.load(open('$sd/meta.json'))['demo_cmd'])")
 summ() { grep -E "^(ok|FAIL|---)" "$1" | sed -E 's/\t[0-9.]+s$//; s/ \([0-9.]+s\)$//; s/\(cached\)//' | sort -u; }
+cpdemo() { if [ -n "$copyto" ]; then cp $sd/demo/*_test.go $wt/$copyto/; fi; }
 echo "### demo on clean tree: $demo" >> $log
+cpdemo
 ( cd $wt && timeout 900 bash -c "$demo" ) >> $log 2>&1; clean_rc=$?
 git checkout -q -- . ; git clean -fdq
 git apply $sd/patch.diff >> $log 2>&1 || { echo "$id-$k: PATCH DOES NOT APPLY"; exit 3; }
 echo "### build with patch" >> $log
 ( go build -tags llvm14 ./ssa/... ./cl/... ./internal/... ./cmd/... ./xtool/... && cd runtime && GOTOOLCHAIN=go1.24.0 go build ./... ) >> $log 2>&1; build_rc=$?
 echo "### demo with patch" >> $log
+cpdemo
 ( cd $wt && timeout 900 bash -c "$demo" ) >> $log 2>&1; patched_rc=$?
 git clean -fdq
 suite=skipped
